@@ -371,7 +371,8 @@ fn main() {
     }
     let (docs_per_lang, hist_per_doc) = if thorough { (40, 12) } else { (8, 3) };
     let island_per_doc = if thorough { 6 } else { 2 };
-    let langs: Vec<String> = if only.is_empty() { zoo::list() } else { only };
+    // `c04quote` is a PRIVATE zoo grammar (quote-delimited strings next to identifiers), named explicitly
+    let langs: Vec<String> = if only.is_empty() { let mut l = zoo::list(); l.push("c04quote".into()); l } else { only };
     let mut hist_no = 0usize;
     for id in langs {
         let b = match zoo::load(&id) {
@@ -447,6 +448,24 @@ fn main() {
                         // one edit in three replaces the last character before a token boundary by a token of the
                         // document's alphabet (punctuation flips such as `?` -> `!` re-reduce the enclosing node with a
                         // sibling production while everything before the edit is reused)
+                        // (wave 9) delimiter moves: delete one quote / bracket character (alone or with the character behind
+                        // it), or insert a copy of one elsewhere — the delimiters behind the edit pair up differently, so
+                        // untouched tokens meet new tokens of the same type and size at SHIFTED offsets
+                        let delims: Vec<usize> = (0..cur.len()).filter(|&i| matches!(cur[i], b'"' | b'\'' | b'`' | b'(' | b')' | b'[' | b']' | b'{' | b'}')).collect();
+                        if !delims.is_empty() && rng.chance(1, 4) {
+                            let p = *rng.pick(&delims);
+                            let te = match rng.below(3) {
+                                0 => TextEdit { start: p, old_end: p + 1, ins: vec![] },
+                                1 => TextEdit { start: p, old_end: (p + 2).min(cur.len()), ins: vec![] },
+                                _ => {
+                                    let at = rng.below(cur.len() + 1);
+                                    TextEdit { start: at, old_end: at, ins: vec![cur[p]] }
+                                }
+                            };
+                            cur = te.apply(&cur);
+                            edits.push(te);
+                            continue;
+                        }
                         if rng.chance(1, 3) && !bounds.is_empty() {
                             let b = (*rng.pick(&bounds)).min(cur.len());
                             if b >= 1 {
